@@ -93,6 +93,9 @@ func (s *Server) handleShareRequest(msg protocol.Message) error {
 	if s.config != nil && s.config.LocalDisabled {
 		return ErrLocalPeerSharingDisabled
 	}
+	if s.config != nil && s.config.RemoteDisabled {
+		return ErrRemotePeerSharingDisabled
+	}
 	s.Protocol.Logger().
 		Debug("share request",
 			"component", "network",
